@@ -25,7 +25,7 @@ ASSUMPTIONS = ["stock asyncio loop, real loopback sockets, real time; verdicts n
                "status codes are demanded only for well-formed requests delivered in one segment"]
 EVAL_COUNTER = "inputs_judged"
 REQUIRED = ["inputs_judged", "probes_ok", "wellformed_checked", "malformed_sent", "status_flips", "port_lifetime_checks", "jobs_completed", "shutdowns_with_lingering_connections", "idle_worker_probes", "probes_while_draining", "races_in_which_the_consumer_did_fail"]
-CASE_TIMEOUT = 120
+CASE_TIMEOUT = 400
 
 
 def gen_cases(tier, seed):
@@ -523,6 +523,8 @@ async def scenario(case, out, stats, fps, samples, incon):
             stats["failures_during_sibling_startup"] += 1
     mid = len(inputs) // 2
     for idx, (kind, chunks, want) in enumerate(inputs):
+        if state.get("burned") and str(kind).startswith("long_segment"):
+            continue
         if case["fail_at"] == "middle" and idx == mid:
             # a connection accepted before the failure and used after it
             held = asyncio.Event()
@@ -554,6 +556,7 @@ async def scenario(case, out, stats, fps, samples, incon):
             await asyncio.sleep(0.02)
             stats["heartbeats"] += 1
             if beat["max"] > 0.4 and sum(map(len, chunks)) < 4096:
+                state["burned"] = True  # (further inputs of that family are skipped: each would cost the same minutes again)
                 # (CPU time the event-loop thread spent between two turns of a 5 ms heartbeat: one callback that computes for
                 # that long; a loaded machine cannot produce it, wall time is not involved)
                 out.append(V("processing_disturbed", kind + "/cpu-burn", f"{sum(map(len, chunks))} request bytes ({chunks[0][:48]!r}...) kept the worker's event loop thread computing for {beat['max']:.2f}s in one go: nothing else - jobs, probes, signals - ran meanwhile"))
